@@ -4868,7 +4868,8 @@ static size_t ZSTD_getBlockSize_deprecated(const ZSTD_CCtx* cctx)
 {
     ZSTD_compressionParameters const cParams = cctx->appliedParams.cParams;
     assert(!ZSTD_checkCParams(cParams));
-    return MIN(cctx->appliedParams.maxBlockSize, (size_t)1 << cParams.windowLog);
+    /* the buffers of the context are sized for cctx->blockSize, which is also bounded by the pledged source size */
+    return MIN(MIN(cctx->appliedParams.maxBlockSize, (size_t)1 << cParams.windowLog), cctx->blockSize);
 }
 
 /* NOTE: Must just wrap ZSTD_getBlockSize_deprecated() */
